@@ -41,7 +41,7 @@ for m in (1, 2, 3, 4):
          "kmp_next/kmp_seti, pattern of %d byte(s): from a fresh state (start index stored, or kmp_seti) and from the state left by a hit, kmp_next returns the first occurrence not before the resume point (find-all: overlapping ones included; replace-all/split: behind the previous one), -1 exactly when none is left, and a hit leaves exactly the resume state - so by induction every result sequence equals the reference search; never reads outside text, pattern or table" % m,
          "h_kmp_search", cls="bounded", bound="pattern of exactly %d byte(s), every text of 0..8 bytes, all byte contents, every start index 0..9" % m,
          mode="plain", src=["string.c"], harness=["str_kmp.c"], defines=["-DKMP_PATLEN=%d" % m], unwind=18,
-         functions=["kmp_next", "kmp_seti", "kmp_init"], timeout=300, tier=("quick" if m <= 2 else "thorough"),
+         functions=["kmp_next", "kmp_seti", "kmp_init"], timeout=300, tier=("quick" if m <= 1 else "thorough"),
          assumes=["calloc model (str_kmp.c): zero-filled fresh block of exactly n*sz bytes, or NULL"],
          mutants=[M_STALE_I] + ([M_SKIP] if m >= 2 else []) + ([M_RESUME0] if m >= 2 else []) + ([KMP_IF] if m >= 4 else []))
 
@@ -141,11 +141,11 @@ unit("str.cfun.buffer.bit.anydouble",
 
 # ------------------------------------------------------------------ string.c: search-based C functions, KMP engine under contract
 SF = dict(mode="plain", src=["string.c"], link=["wrap.c", "util.c"], link_keep={"util.c": ["safe_memcpy"]}, harness=["str_find_cfun.c"],
-          defines=["-DSEQ_ELEM_BYTES"], replace_calls=["kmp_init:kmp_init_stub", "kmp_next:kmp_next_stub"], unwind=4)
+          defines=[], replace_calls=["kmp_init:kmp_init_stub", "kmp_next:kmp_next_stub"], unwind=4, cbmc=["--sat-solver", "cadical"])
 SFA = ["kmp_init / kmp_next replaced by their contracts (asserting stubs; proved in str.kmp.init.table, str.kmp.next.safe for patterns up to 8 bytes, assumed beyond): a hit is ANY index r >= resume point with r + patlen <= textlen",
-       "capi.c getters are stubs: pattern and text are separate readable blocks of any length, integer slots return the slot's low 32 bits, each asserts slot index < argc; janet_arity returns only for an accepted argc",
+       "capi.c getters are stubs: pattern and text are separate readable blocks of any length (slot type BUFFER iff mutable; a slot holding a snapshot string made by the real janet_stringv yields that string), integer slots return the slot's low 32 bits, each asserts slot index < argc; janet_arity returns only for an accepted argc",
        "janet_gcalloc returns a fresh block (asserts a size <= header + INT32_MAX + 1); janet_string_calchash arbitrary",
-       "memcpy model (seq_common.h): ranges must be valid and disjoint - counted obligations; pointwise effect on the ghost byte"]
+       "memcpy model (str_find_cfun.c): ranges must be valid and disjoint - counted obligations (asserted, then assumed for the model's own accesses); pointwise effect on the ghost byte"]
 SUBST = "janet_text_substitution stub: asserts the occurrence is readable, returns a byte view of any length >= 0; does NOT modify the text (see unit str.cfun.string.replace.mutable-text for a callback that does)"
 RES = "janet_array / janet_array_push / janet_buffer_init / janet_buffer_push_bytes / janet_buffer_deinit replaced by asserting models of their contracts (units seq.array.*, seq.buffer.*)"
 unit("str.cfun.string.find",
@@ -160,23 +160,54 @@ unit("str.cfun.string.findall",
      mutants=[mut("push-start-instead", "string.c", "janet_array_push(array, janet_wrap_integer(result));", "janet_array_push(array, janet_wrap_integer(state.i));", "C17")])
 unit("str.cfun.string.replace",
      "string/replace, every text/pattern/substitution length whose result fits int32: arity 3..4; without occurrence a copy of str (subst not evaluated); else a new string of length len str - len patt + len subst = str[0,r) ++ subst ++ str[r + len patt, end), NUL terminated; the three memcpy inside text, subst and the new block",
-     "h_cfun_string_replace", cls="full-domain", functions=["cfun_string_replace", "replacesetup"],
-     assumes=SFA + [SUBST, "domain restriction len str - len patt + len subst <= INT32_MAX; the unrestricted unit str.cfun.string.replace.overflow fails (genuine defect)"], **SF,
+     "h_cfun_string_replace", cls="full-domain", functions=["cfun_string_replace", "replacesetup"], tier="thorough", timeout=600,
+     assumes=SFA + [SUBST, "domain restriction len str - len patt + len subst <= INT32_MAX; all lengths: unit str.cfun.string.replace.overflow"], **SF,
      mutants=[mut("tail-from-hit", "string.c", "                s.kmp.text + result + s.kmp.patlen,\n                s.kmp.textlen - result - s.kmp.patlen);", "                s.kmp.text + result,\n                s.kmp.textlen - result - s.kmp.patlen);", "C17"),
               mut("tail-too-long", "string.c", "                s.kmp.textlen - result - s.kmp.patlen);", "                s.kmp.textlen - result);", "memcpy model|C17")])
 
 REPL_MUT = [mut("tail-too-long", "string.c", "                s.kmp.textlen - result - s.kmp.patlen);", "                s.kmp.textlen - result);", "memcpy model|C17")]
 unit("str.cfun.string.replace.overflow",
-     "string/replace, ALL lengths: the result length len str - len patt + len subst is computed without int32 overflow (raises instead), the new block is large enough for every memcpy",
-     "h_cfun_string_replace", cls="full-domain", tier="thorough", functions=["cfun_string_replace"],
-     disabled_reason="fails on the pinned tree (cfun_string_replace.overflow.3 signed overflow in `s.kmp.textlen - s.kmp.patlen + subst.len`, then janet_gcalloc size / head->length / memcpy destination out of bounds): GENUINE DEFECT, heap overflow -> SIGSEGV: (def big (string/repeat \"a\" 2147483647)) (string/replace \"aaaaaaaa\" big big)",
-     assumes=SFA + [SUBST], **dict(SF, defines=SF["defines"] + ["-DSTR_REPLACE_ANY_LENGTH"]), mutants=REPL_MUT)
+     "string/replace, ALL lengths: the result length len str - len patt + len subst is computed without int32 overflow and the call raises instead of returning a string longer than INT32_MAX; the new block is large enough for every memcpy",
+     "h_cfun_string_replace", cls="full-domain", tier="thorough", timeout=600, functions=["cfun_string_replace"],
+     assumes=SFA + [SUBST], **dict(SF, defines=SF["defines"] + ["-DSTR_REPLACE_ANY_LENGTH"]),
+     mutants=REPL_MUT + [
+         mut("length-check-dropped", "string.c", "    if (newlen > INT32_MAX) {\n        kmp_deinit(&s.kmp);\n        janet_panic(\"result string is too long\");\n    }\n", "", "overflow|conversion|janet_gcalloc|memcpy model|C17|pointer"),
+         mut("length-in-int32", "string.c", "    int64_t newlen = (int64_t) s.kmp.textlen - s.kmp.patlen + subst.len;", "    int64_t newlen = s.kmp.textlen - s.kmp.patlen + subst.len;", "overflow")])
+SNAP_TEXT = mut("text-snapshot-dropped", "string.c", "        if (janet_checktype(argv[2], JANET_BUFFER)) {\n            argv[2] = janet_stringv(text.bytes, text.len);\n            text = janet_getbytes(argv, 2);\n        }\n", "", "memcpy model|janet_buffer_push_bytes precondition|kmp_next precondition|janet_text_substitution precondition|pointer|deallocated")
+SNAP_PAT = mut("pattern-snapshot-dropped", "string.c", "        if (janet_checktype(argv[0], JANET_BUFFER)) {\n            argv[0] = janet_stringv(pat.bytes, pat.len);\n            pat = janet_getbytes(argv, 0);\n        }\n", "", "kmp_next precondition|pointer|deallocated")
+CALLBACK = "janet_text_substitution stub: when subst is a function, the callback may reallocate (free) the ORIGINAL block of a text / pattern argument that is a buffer (once each); strings - the snapshots stored in the argument slots included - are never freed"
+SLOTS = "janet_getbytes stub: the pattern / text slot has type BUFFER iff the argument is mutable; a slot holding a string made by the real janet_stringv (tracked janet_gcalloc block) yields that string's view"
 unit("str.cfun.string.replace.mutable-text",
-     "string/replace with a function as subst and a BUFFER as str: the text is still valid after the callback ran (every later read of the text is inside a live block)",
-     "h_cfun_string_replace", cls="full-domain", tier="thorough", functions=["cfun_string_replace"],
-     disabled_reason="fails on the pinned tree (memcpy model: source range readable / pointer deallocated after janet_text_substitution): GENUINE DEFECT, use after free -> SIGSEGV when the callback grows the buffer that is being searched; same in string/replace-all: (def b (buffer/new-filled 2000000 97)) (put b 10 88) (put b 1999990 88) (string/replace-all \"X\" (fn [m] (buffer/push b (string/repeat \"z\" 50000000)) (buffer/trim b) \"y\") b)",
-     assumes=SFA + ["janet_text_substitution stub: when subst is a function and the text is a buffer, the callback may reallocate (free) the text block"],
-     **dict(SF, defines=SF["defines"] + ["-DSTR_SUBST_MAY_RESIZE"]), mutants=REPL_MUT)
+     "string/replace with a function as subst and BUFFERs as str / patt that the callback reallocates: every read of the text after the callback is inside a live block (the search runs on snapshots stored in the argument slots, which have the length and content of the arguments), result as for immutable arguments",
+     "h_cfun_string_replace", cls="full-domain", tier="thorough", timeout=600, functions=["cfun_string_replace", "replacesetup"],
+     assumes=SFA + [CALLBACK, SLOTS, "domain restriction len str - len patt + len subst <= INT32_MAX (all lengths: str.cfun.string.replace.overflow)"],
+     **dict(SF, defines=SF["defines"] + ["-DSTR_SUBST_MAY_RESIZE"]), mutants=REPL_MUT + [SNAP_TEXT])
+unit("str.cfun.string.replaceall.mutable-text",
+     "string/replace-all with a function as subst and BUFFERs as str / patt that the callbacks reallocate: every later read of text and pattern (pieces, tail, the continued search) is inside a live block (the search runs on snapshots stored in the argument slots), result length as for immutable arguments",
+     "h_cfun_string_replaceall", cls="bounded", bound="at most 2 occurrences reported (result loop unwound); lengths unbounded", tier="thorough", timeout=600,
+     functions=["cfun_string_replaceall", "replacesetup", "kmp_seti"],
+     assumes=SFA + [CALLBACK, SLOTS, RES],
+     **dict(SF, defines=SF["defines"] + ["-DSTR_SUBST_MAY_RESIZE"]), mutants=[SNAP_TEXT, SNAP_PAT])
+
+unit("str.cfun.string.replaceall",
+     "string/replace-all: arity 3..4; occurrences are taken left to right without overlap (search resumes behind each one), subst evaluated once per occurrence; every piece str[last, r) has a non-negative length and lies inside str, the tail likewise; result length = len str + hits * (len subst - len patt) (raises instead of exceeding INT32_MAX); result buffer released",
+     "h_cfun_string_replaceall", cls="bounded", bound="at most 2 occurrences reported (result loop unwound); lengths unbounded", tier="thorough", timeout=600, functions=["cfun_string_replaceall", "replacesetup", "kmp_seti"],
+     assumes=SFA + [SUBST, RES], **SF,
+     mutants=[mut("resume-inside-occurrence", "string.c", "        lastindex = result + s.kmp.patlen;\n        kmp_seti(&s.kmp, lastindex);\n    }\n    janet_buffer_push_bytes", "        lastindex = result + s.kmp.patlen;\n        kmp_seti(&s.kmp, result + 1);\n    }\n    janet_buffer_push_bytes", "C17|janet_buffer_push_bytes precondition"),
+              mut("tail-from-zero", "string.c", "janet_buffer_push_bytes(&b, s.kmp.text + lastindex, s.kmp.textlen - lastindex);", "janet_buffer_push_bytes(&b, s.kmp.text + lastindex, s.kmp.textlen);", "C17|janet_buffer_push_bytes precondition")])
+unit("str.cfun.string.split",
+     "string/split: arity 2..4, raises for an empty delimiter or a negative start; pieces str[last, r) between non-overlapping occurrences have non-negative length and lie inside str, the last piece runs to the end; occurrences + 1 pieces without limit, at most limit pieces with a positive limit; returns a new array",
+     "h_cfun_string_split", cls="bounded", bound="at most 2 occurrences reported (result loop unwound); lengths unbounded; limit > INT32_MIN + 2", functions=["cfun_string_split", "findsetup", "kmp_seti"],
+     assumes=SFA + [RES, "domain restriction limit > INT32_MIN + 2: `--limit` underflows int32 for (string/split d s 0 -2147483648) (formal UB, harmless with wrap-around: unlimited split)"], **SF,
+     mutants=[mut("piece-length-from-zero", "string.c", "const uint8_t *slice = janet_string(state.text + lastindex, result - lastindex);", "const uint8_t *slice = janet_string(state.text + lastindex, result);", "memcpy model|C17"),
+              mut("limit-off-by-one", "string.c", "while ((result = kmp_next(&state)) >= 0 && --limit) {", "while ((result = kmp_next(&state)) >= 0 && limit--) {", "C17")])
+
+unit("str.cfun.string.split.limit-min",
+     "string/split, ALL limits: the limit counter is decremented without int32 overflow",
+     "h_cfun_string_split", cls="bounded", bound="at most 2 occurrences reported", tier="thorough", functions=["cfun_string_split"],
+     disabled_reason="fails on the pinned tree (cfun_string_split.overflow on `--limit`): (string/split \",\" \"a,b\" 0 -2147483648) decrements INT32_MIN (formal UB); harmless with wrap-around arithmetic (the split is simply unlimited), no observable misbehaviour",
+     assumes=SFA + [RES], **dict(SF, defines=SF["defines"] + ["-DSTR_SPLIT_ANY_LIMIT"]),
+     mutants=[mut("limit-off-by-one", "string.c", "while ((result = kmp_next(&state)) >= 0 && --limit) {", "while ((result = kmp_next(&state)) >= 0 && limit--) {", "C17")])
 
 json.dump({"defaults": {"props": ["C17"], "mode": "dfcc", "timeout": 120, "object_bits": 8, "checks": CHECKS}, "units": units},
           open(os.path.join(V, "units", "C17_str.json"), "w"), indent=1)
